@@ -333,6 +333,13 @@ def main(ctx, prop):
                                                     files=dict(device=st_['device'], netspoc=st_['netspoc']), stdout=st_['stdout'],
                                                     oracle='step_scan of Cisco.%sAclCheck' % ('Ios' if st_['family'] == 'IOS' else 'Asa')),
                                         finding=st_['finding'], key='corestep'))
+        if prop == 'C14':
+            # whole ASA configurations with object-groups: order of inserts and deletes per ACL, group-aware search on a broken order
+            from vlib import c14groups
+            ng, fl, bl = c14groups.check(ctx, 70 if q == 0 else 2000)
+            failing += fl
+            breaks += bl
+            extra['asa_group_scripts_order_checked'] = ng
         if prop == 'C10':
             extra['resumed_prefix_states'] = sum(len(c.get('resume', [])) for c in allcases)
             # NSX and PAN-OS: every cut of the request / command sequence, on the strict models of C04 / C03
